@@ -32,7 +32,7 @@ Qed.
 (* ---- the prediction of a real segment that is responsible for k among the real segments ---- *)
 Theorem level_pos_real c eps keys ldk css g new T k J :
   keys <> [] -> sortedb keys = true -> nowrap (c_kt c) keys -> zlen keys < 2 ^ 32 -> 0 <= eps ->
-  concat g = fed_spec (c_kt c) keys -> Lv c eps (EvalOK c k) css g new ->
+  concat g = fed_spec (c_kt c) keys -> Lv c eps (EvalOKc (zlen keys + eps) c k) css g new ->
   tail_shape c ldk (zlen keys) (last new dseg) T ->
   0 <= J < zlen new -> J + 1 < zlen (new ++ T) ->
   sg_key (nth (Z.to_nat J) new dseg) <= k ->
